@@ -149,6 +149,13 @@ def instances(tier):
     out += [Inst(f"change_{k}", make_change(k), nvars=24, samples=2, meta=dict(kind=k)) for k in ("line", "trafo")]
     out += [Inst(f"change_{k}_same_type_name_redefined", make_change(k, same_name=True), nvars=24, samples=2, meta=dict(kind=k, scenario="element already named after the re-defined type"))
             for k in ("line", "trafo")]
+    # several lines created at once from a list of types (create_lines): every line gets the parameters of its own type, also when only some of
+    # the types carry zero-sequence data - the batch path is compared with create_line per line (the instances of C24, reused)
+    all_l = set(c24.LINE_OPT_NUM) | set(c24.LINE_OPT_CONC)
+    zero = {"r0_ohm_per_km", "x0_ohm_per_km", "c0_nf_per_km"}
+    for nm, prs in (("zero_sequence_in_first_only", [all_l, all_l - zero]), ("zero_sequence_in_second_only", [set(), all_l])):
+        out.append(Inst(f"create_lines_type_list_{nm}", c24.make_line_list(prs), nvars=40, samples=2,
+                        meta=dict(kind="line", std_type="list", present=[sorted(p_) for p_ in prs])))
     out.append(Inst("dict_state_machine", make_dict_machine(), nvars=12, samples=3, raises=(UserWarning,), meta=dict(kind="std type library")))
     return out
 
